@@ -78,7 +78,7 @@ func (c *clientView) Write(p []byte) (int, error) {
 }
 func (c *clientView) Flush() { c.flushs++ }
 
-var statusText = map[int]string{200: "OK", 201: "Created", 204: "No Content", 301: "Moved Permanently", 304: "Not Modified", 404: "Not Found", 500: "Internal Server Error", 503: "Service Unavailable"}
+var statusText = map[int]string{200: "OK", 201: "Created", 204: "No Content", 301: "Moved Permanently", 304: "Not Modified", 404: "Not Found", 500: "Internal Server Error", 503: "Service Unavailable", 799: "Custom Status"}
 
 var respHeaderSets = [][][2]string{
 	{{"X-E2e", "1"}},
@@ -153,7 +153,7 @@ func respScripts(tier string) []respScript {
 		sizes = append(sizes, 1<<20)
 	}
 	var out []respScript
-	for _, st := range []int{200, 201, 204, 301, 304, 404, 500, 503} {
+	for _, st := range []int{200, 201, 204, 301, 304, 404, 500, 503, 799} { // 799: any three-digit status is relayed, registered or not
 		for h := range respHeaderSets {
 			for _, sz := range sizes {
 				for _, fr := range []string{"content-length", "chunked", "close"} {
@@ -724,7 +724,7 @@ func runSpecials(w *c16world, rep *lib.Report) {
 func RunC16(tier string, sh lib.Shard, rep *lib.Report) {
 	scripts := respScripts(tier)
 	rep.Bounds["response_scripts"] = len(scripts)
-	rep.Rule = "every backend response script (8 statuses x 3 header sets x body sizes {0,1,4KiB-1,32KiB+1(,1MiB)} x framing {Content-Length, chunked, close-delimited}, written in several pieces; a third of them also preceded by a 103 informational response) relayed fault-free under each of 16 client request heads (Connection with empty list elements, twice, close, upgrade without Upgrade; TE; empty/list forwarding headers; long and empty values; POST declared/chunked/empty; OPTIONS), and with a fault {close, reset, stall} injected at EVERY step index of the script; plus connection refused, garbage heads and client cancellation; plus exchanges through a real net/http server to a raw TCP client (trailers announced or not after empty and non-empty bodies, framings); raw TCP backend, real forward.New proxy wrapped in a StateListener and a status-recording writer; non-trivial = faults injected"
+	rep.Rule = "every backend response script (9 statuses incl. the unregistered 799 x 3 header sets x body sizes {0,1,4KiB-1,32KiB+1(,1MiB)} x framing {Content-Length, chunked, close-delimited}, written in several pieces; a third of them also preceded by a 103 informational response) relayed fault-free under each of 16 client request heads (Connection with empty list elements, twice, close, upgrade without Upgrade; TE; empty/list forwarding headers; long and empty values; POST declared/chunked/empty; OPTIONS), and with a fault {close, reset, stall} injected at EVERY step index of the script; plus connection refused, garbage heads and client cancellation; plus exchanges through a real net/http server to a raw TCP client (trailers announced or not after empty and non-empty bodies, framings); raw TCP backend, real forward.New proxy wrapped in a StateListener and a status-recording writer; non-trivial = faults injected"
 	rep.Assume("ResponseHeaderTimeout 150ms is part of the stall scenarios (backend stalls until released), 20s everywhere else; 30s watchdog, hits re-run 5x", "broken or garbage heads may map to 500 or 502")
 	rep.Require("fault_free_relays", "relays_after_an_informational_response", "relays_with_unusual_request_heads", "large_bodies_relayed", "faults_injected", "gateway_errors_mapped", "aborted_mid_body")
 	w := newC16World()
